@@ -22,12 +22,18 @@ ASSUMPTIONS = [
     "text spells the token named by the dump",
     "`\\xHH` rewrites are applied to literals without interpolation slots only (positions inside slots are computed from "
     "the decoded text: known finding K2)",
+    "diagnostics raised inside an interpolation slot are compared without their position (known finding K2: the column is "
+    "computed from the enclosing expression's stored position and the decoded text)",
     "the position reported for a terminator written as a newline is (next line, column 0); the mapped position is "
     "compared only when the anchoring token is not such a terminator",
 ]
 
 ELIGIBLE = L.CONTINUATION_KINDS
 INELIGIBLE = {"DotDot", "DashGreaterThan", "Colon", "EqualsEqualsEquals", "BangEqualsEquals", "Ident", "ParenClose"}
+
+
+SLOT_DIAG = re.compile(r"\A[^\n:]*:\d+:\d+:(?: in '[^']*':)? (?:\d+:\d+: |couldn't create interpolated slot string|"
+                       r"interpolated values can only be strings|couldn't parse interpolation slot)")
 
 
 def outcome_class(r):
@@ -122,6 +128,13 @@ def judge(lay, base_kinds, base_run, v, vkinds, vrun):
     if base_run["stderr"] or vrun["stderr"]:
         pm = L.PosMap(lay, v.src, v.starts, v.tail_start, v.changed)
         want = pm.map_stderr(base_run["stderr"])
+        if SLOT_DIAG.match(base_run["stderr"]):
+            # raised inside an interpolation slot: the reported column is computed from the stored position of the
+            # enclosing expression and the decoded text (known finding K2; also off for a parenthesised literal)
+            strip = lambda e: re.sub(r"\d+:\d+", "", e)
+            if strip(vrun["stderr"]) != strip(base_run["stderr"]):
+                return "run", "the message changed"
+            return "slot", ""
         if want is None:
             # not anchored to a token: compare the message with positions erased
             strip = lambda e: re.sub(r"\d+:\d+", "", e)
@@ -194,6 +207,8 @@ def process(ctx, rng, model_ok, bases, n_random, cap_single, state, tie_share):
         ctx.nontrivial((v.kind, v.tag, oc))
         if level == "unmapped":
             ctx.exclude("position_not_anchored_to_a_token(message compared without position)")
+        elif level == "slot":
+            ctx.exclude("diagnostic_inside_interpolation_slot(message compared without position: K2)")
         elif level is not None:
             failures.append((i, level, why))
     # ---- confirm through the unmodified CLI, smallest first, one per (kind, tag, level)
